@@ -591,6 +591,12 @@ func (e *FEnc) builtin(st *State, in ssa.Instruction, b *ssa.Builtin, cc *ssa.Ca
 		args = append(args, e.valOf(a))
 	}
 	e.atCall(st, in, "builtin."+b.Name(), args, nil)
+	if b.Name() == "append" && len(cc.Args) == 2 {
+		// appends can also be addressed by element type: at-call builtin.append[pkg.Type] ($0 the list, $1 the elements added)
+		if sl, ok := cc.Args[0].Type().Underlying().(*types.Slice); ok {
+			e.atCall(st, in, "builtin.append["+types.TypeString(sl.Elem(), func(p *types.Package) string { return p.Name() })+"]", args, nil)
+		}
+	}
 	switch b.Name() {
 	case "len", "cap":
 		a := args[0]
